@@ -320,6 +320,51 @@ pub fn run(ctx: &Ctx) -> (Stats, Spec) {
         s
     });
     st.merge(crate::report::merge_all(parts));
+    // NESTED fixed points of one kind (also of both kinds) whose inner body mentions the outer
+    // variable: the inner one is solved again in every round of the outer one, from its constant.
+    // Arbitrary connectives — whatever nest the reference iteration finds convergent is judged.
+    let nests = ctx.tier.pick(12_000u64, 200_000u64);
+    let parts = util::par_jobs(16, |job| {
+        let mut s = Stats::new();
+        let mut rng = Rng::stream(ctx.seed, "C01.nests", job as u64);
+        let mut outer_cfg = GenCfg::simple(&["X", "a", "HOLE", "b"], 2);
+        outer_cfg.allow_fix = false;
+        let mut inner_cfg = GenCfg::simple(&["X", "Y", "b", "a"], 2);
+        inner_cfg.allow_fix = false;
+        for _ in 0..nests {
+            let has = |t: &str, name: &str| t.split(|c: char| !(c.is_alphanumeric() || c == '_')).any(|w| w == name);
+            let (mut outer, mut inner) = (String::new(), String::new());
+            for _ in 0..30 {
+                outer = gen::render(&gen::gen_ast(&mut rng, &outer_cfg), &mut rng, Style::Plain);
+                if has(&outer, "HOLE") {
+                    break;
+                }
+            }
+            for _ in 0..30 {
+                inner = gen::render(&gen::gen_ast(&mut rng, &inner_cfg), &mut rng, Style::Plain);
+                if has(&inner, "X") && has(&inner, "Y") {
+                    break;
+                }
+            }
+            if !has(&outer, "HOLE") || !has(&inner, "X") || !has(&inner, "Y") {
+                continue;
+            }
+            let (k1, k2) = match rng.below(6) {
+                0 | 1 => ("lfp", "lfp"),
+                2 | 3 => ("gfp", "gfp"),
+                4 => ("mu", "nu"),
+                _ => ("gfp", "lfp"),
+            };
+            let nested = format!("({} Y # ({}))", k2, inner);
+            let body: String = outer.split("HOLE").collect::<Vec<_>>().join(&nested);
+            let text = format!("{} X # ({})", k1, body);
+            if check_text(&mut s, &text, "nested-fixed-points-with-cross-dependency") {
+                s.bump("nested_fixed_points_with_cross_dependency");
+            }
+        }
+        s
+    });
+    st.merge(crate::report::merge_all(parts));
     st.exhaustive.push("every formula tree with <= 2 operator nodes over a, b as body of `lfp a #` and `gfp a #` (convergent ones judged, monotone or not)".into());
     let (iters, max_names, depth) = ctx.tier.pick((40_000u64, 6usize, 5u32), (1_500_000u64, 8usize, 6u32));
     let parts = util::par_jobs(16, |job| random_job(ctx, job, iters, max_names, depth));
